@@ -12,3 +12,51 @@ Lemma alpm_convexity_fails_across_classes :
   rc $">1.0-1" $"1.0-2" = Some true /\ rc $">1.0-1" $"1.0-3" = Some true /\
   rc $">1.0-1" $"1.0" = Some false.
 Proof. vm_compute. repeat split; reflexivity. Qed.
+
+(* ---------- within one pkgrel class convexity holds ---------- *)
+From Verif.Base Require Import BytesFacts GoNum.
+From Verif.Eco Require Import RangeCore RangeCoreFacts VLayer.
+From Verif.Eco.Alpm Require Import VersionFacts.
+From Verif.Properties.Support Require SimpleRops.
+
+Lemma thenc_Eq_r c : thenc c Eq = c.
+Proof. destruct c; reflexivity. Qed.
+
+(* against a bound of the other class the pkgrel is not compared at all *)
+Lemma cmp_core_other_class v x :
+  c_has_pkgrel v <> c_has_pkgrel x -> cmp_core v x = cmp_nopkgrel v x.
+Proof.
+  intros H. rewrite cmp_core_refines. unfold cmp_pkgrel.
+  destruct (c_has_pkgrel v), (c_has_pkgrel x); try congruence; simpl; apply thenc_Eq_r.
+Qed.
+
+Lemma le_nopkgrel a b : le_c (cmp_core a b) -> le_c (cmp_nopkgrel a b).
+Proof.
+  unfold le_c. rewrite cmp_core_refines. destruct (cmp_nopkgrel a b); simpl; congruence.
+Qed.
+
+Section Convex.
+  Variable vparse : bytes -> option Alpm.Version.ver.
+
+  Theorem alpm_convex_same_class (h : bool) (r : range) (a b c : Alpm.Version.ver) :
+    c_has_pkgrel (v_core a) = h -> c_has_pkgrel (v_core b) = h -> c_has_pkgrel (v_core c) = h ->
+    le_c (Alpm.Version.cmp a b) -> le_c (Alpm.Version.cmp b c) ->
+    contains Alpm.Version.ver vparse Alpm.Version.cmp Alpm.Range.cfg r a = true -> contains Alpm.Version.ver vparse Alpm.Version.cmp Alpm.Range.cfg r c = true ->
+    contains Alpm.Version.ver vparse Alpm.Version.cmp Alpm.Range.cfg r b = true.
+  Proof.
+    intros Ha Hb Hc Hab Hbc. unfold contains.
+    induction (r_cs r) as [|k cs IH]; [reflexivity|]. cbn [forallb].
+    rewrite !andb_true_iff. intros [A1 A2] [C1 C2]. split; [|apply IH; assumption].
+    unfold sat_constraint in *. destruct (vparse (snd k)) as [x|]; [|discriminate].
+    unfold Alpm.Version.cmp, VLayer.cmp in *. cbn [rc_sem Alpm.Range.cfg] in *.
+    destruct (Bool.bool_dec (c_has_pkgrel (v_core x)) h) as [Hx|Hx].
+    - (* the bound is in the class: Compare is the total preorder [cmp_class h] on the four *)
+      rewrite (cmp_core_in_class h) in * by assumption.
+      apply (sat_convex _ (cmp_class h) (cmp_class_tp h) _ (v_core x) (v_core a) (v_core b) (v_core c));
+        auto. apply SimpleRops.sem5_convex.
+    - (* the bound is in the other class: only epoch and pkgver are compared with it *)
+      rewrite cmp_core_other_class in * by congruence.
+      apply (sat_convex _ cmp_nopkgrel cmp_nopkgrel_tp _ (v_core x) (v_core a) (v_core b) (v_core c));
+        auto using le_nopkgrel. apply SimpleRops.sem5_convex.
+  Qed.
+End Convex.
